@@ -22,6 +22,15 @@ CLAIMED = {
   "C05": (SYMX % "TABEAM writers (EAM and EEAM) and tabulation classes",
           "declared count vs blocks found, required block set, header fields and value slots as z3 terms for all functions/cutoffs over the stated element layouts and grids",
           NOTE, "3 C05"),
+  "C06": ("symbolic execution of every built-in form through its four access routes (function, factory, registry 'as.NAME', formula-call binding) on symbolic r and parameters; z3 decides equality with the hand-transcribed documented formula (exact) or a linear query over polynomial coefficients (tolerant 1e-9 for forms with rounded literals)",
+          "for all r>0 and all parameter values each route's term equals the reference formula's term; polynomial orders and concrete exponents over the stated sets",
+          NOTE + "; reference formulas in specs/potential_forms.py are trusted; exp/sqrt/pow are atoms with their defining relations", "3 C06"),
+  "C07": ("forward-mode automatic differentiation (jets over SYMX proxies) of the real energy code versus the real deriv/deriv2 code; z3 decides the identities (nonlinear real arithmetic with uninterpreted functions; tolerant polynomial-coefficient query for rounded literals)",
+          "for all r>0, all parameters and - for plus/product/pow/trans/multi-range/spline dispatch - all operand functions (uninterpreted), offered derivatives equal the true derivatives; missing analytic derivatives fall back to the central difference of that operand only; nesting depth per stated bound",
+          NOTE + "; trusted calculus: symx/jets.py; scipy's spline replaced by its contract (f, f', f'')", "3 C07"),
+  "C08": ("path-exhaustive symbolic execution of the real sort/search code over symbolic range starts and r (all marker mixtures, all listing orders) with a z3 If-oracle of the statement; potable default start through the real parser/builder",
+          "for 1..3 (thorough 1..5) ranges with symbolic starts: value, deriv and deriv2 come from the range the statement selects on every path; permuted listings agree",
+          NOTE + "; excluded by design: identical start and marker; which of '>= s' / '> s' wins for r > s (statement and pinned test disagree)", "3 C08"),
   "C19": (SYMX % "GULP, ADP, funcfl and Excel writers",
           "same slot-level term comparison for the secondary targets (funcfl charge via a sqrt atom with Z>=0, Z^2*27.2*0.529 = r*phi)",
           NOTE + "; workbook cells read from the openpyxl object", "3 C19"),
